@@ -107,7 +107,7 @@ def _both(name, define, loops, functions, extra=None):
     return [_method(name, define, loops, functions, extra=extra),
             _method(name, define, loops, functions, weak=True, extra=extra)]
 
-JOBS += _both("nt", "M_nt", NT_LOOPS, ["crypt_nt_rn"], extra={"wip": True, "bounds": {"SPAN": 64, "STR": 32, "SPANEXACT": 24, "STRCPY": 384}, "unwind": 18})
+# crypt_nt_rn has its own lean harness (job "nt" below, harness/nt.c)
 SUNMD5_EXTRA = {"late_src": ["models/snprintf.c"], "replace_calls": ["muffet_coin_toss:muffet_coin_toss_stub"], "timeout": 900, "mem_gb": 8}
 JOBS += [_method("sunmd5", "M_sunmd5", SUNMD5_LOOPS, ["crypt_sunmd5_rn"], extra=dict(SUNMD5_EXTRA, set_cap=128, tier="thorough", timeout=2400)),
          _method("sunmd5", "M_sunmd5", SUNMD5_LOOPS, ["crypt_sunmd5_rn"], weak=True, extra=SUNMD5_EXTRA)]
@@ -172,3 +172,11 @@ JOBS.append({"name": "sha1crypt", "props": ["C01", "C03", "C04", "C05", "C06", "
              "unwind": 10, "bounds": {"SPAN": 64, "STR": 32, "SPANEXACT": 24, "PCTS": 104}, "mem_gb": 6, "timeout": 2400, "no_native": True,
              "bound": "strlen (setting) < 136, salt field of at most 104 characters (the first size check of the function assumes 64; the overrun it missed needs 65 or more)",
              "assumptions": ["hmac_sha1_process_data replaced by its contract (job hmac_sha1)", "A-dec for the printed iteration count"]})
+
+JOBS.append({"name": "nt", "props": ["C01", "C02", "C03", "C04", "C05", "C06", "C07"], "functions": ["crypt_nt_rn"],
+             "harness": "harness/nt.c", "defs": ["XV_STRCPY_MAX=384"], "verif_src": ["models/strings.c"],
+             "loops": [{"function": "_crypt_crypt_nt_rn", "anchor": "for (size_t i = 0; i < phr_size; i++)", "nth": 0,
+                        "invariant": "i <= phr_size && (g_j >= i || (intbuf->unipw[2 * g_j] == g_phr[g_j] && intbuf->unipw[2 * g_j + 1] == 0))",
+                        "assigns": "i, __CPROVER_object_whole(intbuf)", "decreases": "phr_size - i"}],
+             "unwind": 18, "bounds": {"STR": 32, "STRCPY": 384}, "mem_gb": 6, "timeout": 900, "no_native": True,
+             "assumptions": ["MD4_Init/Update/Final and strcpy_or_abort replaced by their contracts (md4_*, leaf_strcpy_or_abort)"]})
